@@ -2,6 +2,7 @@ import RzilVerif.Model.Certificate
 import RzilVerif.Props.C05Compose
 import RzilVerif.Props.CompileHEqv
 import RzilVerif.Props.C08
+import RzilVerif.Lemmas.ImmFrame
 /-!
 # C01 — shipped instruction behaviours are translated faithfully end to end
 
@@ -19,7 +20,11 @@ open Rzil C05
 /-- **End to end, as coded, all states**: if the certificate of a behaviour holds and the lowering as coded returns
     an effect, then from every initial machine state (no locals yet, source operands unwritten) in which the C
     behaviour terminates, the effect executes to a state with the same registers, `.new` bank, memory, store log,
-    jump flag/target and slot-cancel flag. -/
+    jump flag/target and slot-cancel flag.
+    The final-state relation `StRel` does NOT relate the immediates (`MState.imm`): they are an input of the instruction,
+    not an observable output, and a behaviour may assign to them (`riV = riV & ~3`: the C side then holds the new value
+    in `imm`, the IL side in the local of the letter).  For behaviours without such an assignment equal immediates
+    follow separately (`C05.imm_eq_of_noImmTargets`). -/
 theorem certified_correct {ms : MacroSem} (hms : MsOK ms) {prog : List CStmt} {eff : ILEffect}
     (hcert : certified prog = true) (hcomp : compileProgH Cfg.asCode prog = .ok eff)
     {σ0 σC' : MState} (hloc : σ0.locals = []) (hsrcs : ∀ ov ∈ (ctxOf prog).srcs, σ0.written ov = false)
@@ -29,6 +34,16 @@ theorem certified_correct {ms : MacroSem} (hms : MsOK ms) {prog : List CStmt} {e
   obtain ⟨⟨⟨⟨⟨hok, hwf⟩, hwfe⟩, hcarve⟩, hfree⟩, hdead⟩ := hcert
   exact progH_correct_asCode_closed' hms hok hcarve hfree hdead hcomp (fun _ => Iff.rfl) hwf hwfe hloc hsrcs hex
 
+/-- `certified_correct` with the conclusion it had before immediates became assignable: for a behaviour that assigns
+    to no immediate (`noImmTargets`) the two final states also have the same immediates. -/
+theorem certified_correct_imm {ms : MacroSem} (hms : MsOK ms) {prog : List CStmt} {eff : ILEffect}
+    (hcert : certified prog = true) (hnoimm : noImmTargets prog = true) (hcomp : compileProgH Cfg.asCode prog = .ok eff)
+    {σ0 σC' : MState} (hloc : σ0.locals = []) (hsrcs : ∀ ov ∈ (ctxOf prog).srcs, σ0.written ov = false)
+    (hex : ExecCs ms prog σ0 σC') :
+    ∃ σIL', ExecIL ms eff σ0 σIL' ∧ StRel σC' σIL' ∧ σC'.imm = σIL'.imm := by
+  obtain ⟨σIL', hx, hrel⟩ := certified_correct hms hcert hcomp hloc hsrcs hex
+  exact ⟨σIL', hx, hrel, imm_eq_of_noImmTargets hnoimm hex hx⟩
+
 /-- for certified behaviours the two lowering models coincide (so theorems stated on either apply) -/
 theorem certified_models_agree {prog : List CStmt} (hcert : certified prog = true) :
     compileProgH Cfg.asCode prog = compileProg Cfg.asCode prog := by
@@ -36,7 +51,8 @@ theorem certified_models_agree {prog : List CStmt} (hcert : certified prog = tru
   obtain ⟨⟨⟨⟨⟨_, _⟩, _⟩, hcarve⟩, hfree⟩, hdead⟩ := hcert
   exact compileProgH_eq_compileProg_asCode prog hfree (HSameProg_of_carve prog hfree hcarve hdead)
 
-/-- the repaired lowering needs no carve-out -/
+/-- the repaired lowering needs no carve-out (final states: see the note at `certified_correct`; the immediates are
+    not related by `StRel`) -/
 theorem wellformed_correct_fixed {ms : MacroSem} (hms : MsOK ms) {prog : List CStmt} {eff : ILEffect}
     (hok : (ctxOf prog).ok = true) (hwf : WFStmts (ctxOf prog) prog = true)
     (hwfe : (exprsOfList prog).all (WFES (ctxOf prog)) = true) (hcomp : compileProg Cfg.fixed prog = .ok eff)
@@ -53,10 +69,11 @@ theorem reject_or_effect (cfg : Cfg) (prog : List CStmt) :
   | error m => exact .inl ⟨m, rfl⟩
   | ok e => exact .inr ⟨e, rfl⟩
 
--- non-vacuity: a real shipped behaviour shape (A2_add: `RdV = RsV + RtV;`) is certified
+-- non-vacuity: a real shipped behaviour shape (A2_add: `RdV = RsV + RtV;`) is certified (and assigns to no immediate)
 def a2_add : List CStmt :=
   [.assign (.reg "RdV" .dst ⟨true, 32⟩) "=" (.bin "+" (.reg "RsV" .src ⟨true, 32⟩) (.reg "RtV" .src ⟨true, 32⟩))]
 example : certified a2_add = true := by decide +kernel
+example : noImmTargets a2_add = true := by decide +kernel
 example : pureEqualsH Cfg.asCode a2_add = true := by decide +kernel
 
 -- a store with an effective address (S2_storerb_io shape) is NOT certified: `EA = RsV + siV` converts a signed value
